@@ -9,7 +9,7 @@ U = 2.0 ** -72         # the unit in the last place of the double 1e-6 (= 472236
 NE = 4722366482869645  # mantissa of the double 1e-6
 NH = (NE - 1) // 2     # NH + (NH + 1) == NE: two stretches that add up to exactly the threshold
 STYLES = ['plain', 'ties', 'coalesce', 'reinserting', 'empty', 'mixed',
-          'pastadds', 'negkids', 'epsgrid', 'decimal', 'diverge', 'clockrel', 'interrupt', 'exact']
+          'pastadds', 'negkids', 'epsgrid', 'decimal', 'diverge', 'clockrel', 'interrupt', 'exact', 'reent']
 
 
 class Runaway(BaseException):
@@ -94,6 +94,8 @@ def gen_history_any(rng, big):
         return style, gen_interrupt(rng, big)
     if style == 'exact':
         return style, gen_exact(rng, nids)
+    if style == 'reent':
+        return style, gen_reent(rng, nids)
     # callback behaviours: zero/small delays only towards larger ids (a DAG), self-reinsertion
     # only with a delay of at least 1/8 so that every history terminates
     for i in range(nids):
@@ -267,6 +269,52 @@ def gen_exact(rng, nids):
     return ops
 
 
+def reentrant(ops):
+    return any(op[0] == 'nest' for op in ops)
+
+
+def nest_reach(ops):
+    """how far beyond an evolve_until target nested calls can carry the evolution: each callback added from outside may
+    re-enter once (re-entering callbacks are nobody's children), by at most the largest positive nest delay"""
+    ds = [float(op[2]) for op in ops if op[0] == 'nest' and float(op[2]) > 0]
+    return (max(ds) if ds else 0.0) * sum(1 for op in ops if op[0] == 'add')
+
+
+def gen_reent(rng, nids):
+    """Round 6: callbacks that call evolve_until themselves (op ('nest', id, d, k): after scheduling its first k children
+    the callback calls evolve_until(own time + d)) - Lean loopR / evolveUntilR, theorems reentrant_*.  d < 0 (or a clock
+    ahead of the callback's time): the nested call is refused and the ValueError leaves the outer call; 0 <= d: a nested
+    evolution, beyond the outer target or not.  Re-entering callbacks are nobody's children (no unbounded recursion)."""
+    nids = max(nids, 2)
+    while True:
+        ops = []
+        nesters = sorted(set(int(rng.integers(0, nids)) for _ in range(int(rng.integers(1, 3)))))
+        plain = [i for i in range(nids) if i not in nesters]
+        for i in range(nids):
+            kids = []
+            if i in plain and rng.random() < 0.4:
+                kids.append((float(rng.integers(1, 9)) / 8.0, i))
+            for _ in range(int(rng.integers(0, 3))):
+                if plain:
+                    j = plain[int(rng.integers(0, len(plain)))]
+                    if j > i or i in nesters:
+                        kids.append(([0.0, TINY * int(rng.integers(0, 6)), float(rng.integers(0, 9)) / 4.0][int(rng.integers(0, 3))], j))
+            if kids:
+                ops.append(('kids', i, kids))
+            if i in nesters:
+                d = [-0.5, -TINY, 0.0, 2 * TINY, 0.25, 1.0, 2.5, float(rng.integers(0, 17)) / 4.0][int(rng.integers(0, 8))]
+                ops.append(('nest', i, d, int(rng.integers(0, 3))))
+        t = 0.0
+        for _ in range(int(rng.integers(1, 5))):
+            for _ in range(int(rng.integers(0, 6))):
+                ops.append(('add', t + float(rng.integers(0, 17)) / 4.0 + TINY * int(rng.integers(0, 4)), int(rng.integers(0, nids))))
+            t = t + float(rng.integers(0, 13)) / 4.0 + TINY * int(rng.integers(0, 4))
+            ops.append(('evolve', t))
+        ext = nest_reach(ops)
+        if population([(op[0], op[1] + ext) if op[0] == 'evolve' else op for op in ops]) < POPULATION_CAP // 2:
+            return ops
+
+
 def gen_interrupt(rng, big):
     """A callback raises in the middle of an ordinary (terminating) evolution and the caller resumes: every
     evolve_until(T) runs under a guard (the g-th callback executed raises after its work), then the guard is taken off
@@ -330,6 +378,8 @@ def respell(rng, ops):
     'arrays': fresh 0-d / 1-element arrays everywhere.  'running0d' / 'running1d': ONE caller-owned array that is
     overwritten in place before each evolve_until (and some add_callback) - the time-stepping-loop idiom."""
     sp = ['float', 'float', 'mixed', 'mixed', 'arrays', 'running0d', 'running1d'][int(rng.integers(0, 7))]
+    if reentrant(ops):
+        return 'float', ops
     if exact_axis(ops):
         return 'axis-' + exact_axis(ops), ops       # the spelling IS the axis: every time an object of that type
     if sp == 'float':
@@ -474,6 +524,9 @@ def hard_bound(ops):
     """How many callbacks + integrate() calls ONE evolve_until of this history may execute before the recorder aborts it:
     four times what the dry run of the whole history executes (each callback is preceded by at most one integration,
     plus slack for the coalescing the dry run ignores), and at least 200."""
+    if reentrant(ops):      # nested calls carry an evolution beyond its own target
+        ext = nest_reach(ops)
+        ops = [(op[0], tm(op[1]) + ext) + tuple(op[2:]) if op[0] == 'evolve' else op for op in ops]
     return 4 * population(ops, cap=4 * POPULATION_CAP) + 4 * sum(1 for op in ops if op[0] in ('add', 'evolve')) + 200
 
 
@@ -552,6 +605,8 @@ def run_real(ops):
     nexec = [0]
     pre = [0]          # > 0: the pre-th callback called within one evolve_until raises PreRaise before doing anything
     wf = [True]        # every child delay so far is >= 0 (Lean: WF kids)
+    nest = {}          # id -> (d, k): the callback calls evolve_until(own time + d) after its first k children (Lean: nestBody)
+    nested = []        # (target, clock when the nested call was made) of the running evolve_until
 
     def snap():
         return (V(s.t), sorted((V(q[0]), q[1]) for q in s.callbacks))
@@ -597,7 +652,17 @@ def run_real(ops):
             if pre[0] and nexec[0] + 1 >= pre[0]:
                 nexec[0] += 1
                 raise PreRaise()
-            for d, child, kind in kids.get(cid, []):
+            kl = kids.get(cid, [])
+            nst = nest.get(cid)
+            if nst is not None and nst[1] >= len(kl):
+                kl = kl + [None]                    # the nested call comes after all children
+            for idx, kd in enumerate(kl):
+                if nst is not None and idx == min(nst[1], len(kl) - 1):
+                    nested.append((t + nst[0], V(s.t)))
+                    s.evolve_until(t + nst[0])      # re-entrancy: a ValueError (target below the clock) escapes
+                if kd is None:
+                    break
+                d, child, kind = kd
                 if kind == 'clock':
                     tc = V(s.t) + d                # the docstring idiom: self.t + period
                     if tc < t:
@@ -629,6 +694,8 @@ def run_real(ops):
             kids[op[1]] = [(tm(k[0]), int(k[1]), (k[2] if len(k) > 2 else 'own')) for k in op[2]]
             if any(tm(k[0]) < 0 for k in op[2]):
                 wf[0] = False
+        elif op[0] == 'nest':
+            nest[int(op[1])] = (tm(op[2]), int(op[3]))
         elif op[0] == 'mode':
             mode.add(op[1])
         elif op[0] == 'guard':
@@ -649,6 +716,7 @@ def run_real(ops):
                 break
         elif op[0] == 'evolve':
             s.events = []
+            del nested[:]
             nexec[0] = 0
             nrec[0] = 0
             t0 = V(s.t)
@@ -694,7 +762,7 @@ def run_real(ops):
                         'hz': hz, 'adds_after_horizon': adds_after_horizon, 'alias': alias,
                         'adds_from_clock': adds_from_clock, 'wf': wf[0], 'guard': guard[0], 'why': why,
                         'q0': q0, 'progress': progress(kids), 'pre': pre[0],
-                        'nrec': nrec[0]})
+                        'nrec': nrec[0], 'reent': bool(nest), 'nested': list(nested)})
             alias = []
             if status == 'runaway':
                 break           # the system is in the middle of a loop that does not end: the history stops here
@@ -706,7 +774,7 @@ def run_real(ops):
         obs[-1]['final_flags'] = (adds_after_horizon, adds_from_clock)
         # the same target once more must be accepted (it is not backwards): a zero-length evolution
         last = obs[-1]
-        if last['status'] == 'ok' and not guard[0] and not pre[0]:
+        if last['status'] == 'ok' and not guard[0] and not pre[0] and not (nest and last['t1'] > last['T']):
             try:
                 n0 = len(s.events)
                 s.evolve_until(last['T'] if last_arg[0] is None else last_arg[0])
@@ -848,6 +916,8 @@ def model_lines(ops, fuels=None, obs=None):
                 '%s:%d:%s' % (rat(tm(k[0])), k[1], 'c' if len(k) > 2 and k[2] == 'clock' else 'o') for k in op[2]) or '-'))
         elif op[0] == 'add':
             lines.append('C20 add %s %d' % (rat(tm(op[1])), op[2]) if cell is None else 'C20 addref %d %d' % (cell, op[2]))
+        elif op[0] == 'nest':
+            lines.append('C20 nest %d %s %d' % (op[1], rat(tm(op[2])), op[3]))
         elif op[0] in ('mode', 'axis'):
             continue            # callbacks passing the clock object back: times are values
         elif op[0] == 'raise':
@@ -859,7 +929,9 @@ def model_lines(ops, fuels=None, obs=None):
             if fuels:
                 fuel = fuels.pop(0)
             o = obs[len(idx) - 1] if obs is not None and len(idx) - 1 < len(obs) else None
-            if o is not None and o['status'] == 'raised':
+            if reentrant(ops):
+                lines.append('C20 evolver %s %d new' % (rat(tm(op[1])), fuel))
+            elif o is not None and o['status'] == 'raised':
                 # the callback that raised at once: the last one called (Lean: loopX with raises = (ctr == c))
                 c = [e for e in o['events'] if e[0] == 'F'][-1][2]
                 lines.append('C20 evolvex %s %d %d new' % (rat(tm(op[1])), fuel, c))
@@ -877,6 +949,51 @@ def model_lines(ops, fuels=None, obs=None):
 
 # ---------------------------------------------------------------------------------------------
 # the property itself, stated on the observations of the real code (independent of the model)
+
+def reent_clauses(o, fires, fired_keys, executed_before):
+    """One evolve_until(T >= clock) during which callbacks called evolve_until themselves.  Outside the quantifier of
+    C20 ("callbacks may schedule further callbacks"); evaluated are the clauses the code keeps - and Lean proves of
+    loopR: tiling for every status (reentrant_tiling), a returning call leaves the clock >= T - 1e-6
+    (reentrant_clock_end_lower) and <= T when no nested target exceeded T (reentrant_clock_end) - plus exactly-once
+    (nothing twice, everything due before T executed, nothing beyond the furthest target) and: an escaping ValueError
+    comes from a nested target below the clock."""
+    bad = []
+    T = o['T']
+    tol = 1e-9 * max(1.0, abs(o['t1']))
+    dts = [e[1] for e in o['events'] if e[0] == 'I']
+    if o['status'] not in ('ok', 'value'):
+        return [('raises-%s' % o['status'], 're-entrant evolve_until(%r) raised %s' % (T, o['status']))]
+    if abs(sum(dts) - (o['t1'] - o['t0'])) > tol:
+        bad.append(('tiling', 're-entrant: integration intervals sum to %r but the clock moved by %r' % (sum(dts), o['t1'] - o['t0'])))
+    if any(dt <= EPS for dt in dts):
+        bad.append(('tiling', 're-entrant: an integration interval of at most 1e-6 was integrated'))
+    if len(set(fired_keys)) != len(fired_keys):
+        bad.append(('exactly-once', 're-entrant: a callback ran twice'))
+    reach = max([T] + [tg for tg, clk in o['nested']])
+    allowed = set((t, c) for (t, c, i) in o['scheduled'] if t < reach) - executed_before
+    if not set(fired_keys) <= allowed:
+        bad.append(('exactly-once', 're-entrant: a callback ran that was not due before the furthest target %r or had run already' % (reach,)))
+    if set(fired_keys) & set(o['queue']):
+        bad.append(('exactly-once', 're-entrant: an executed callback is still queued'))
+    if o['status'] == 'value':
+        if not any(tg < clk for tg, clk in o['nested']):
+            bad.append(('forwards-refused', 're-entrant evolve_until(%r): ValueError although no nested target was below the clock' % (T,)))
+        elif fires and o['t1'] != fires[-1][4] and o['nested'][-1][0] < o['nested'][-1][1]:
+            pass
+        return bad
+    due = set((t, c) for (t, c, i) in o['scheduled'] if t < T) - executed_before
+    if not due <= set(fired_keys) or any(t < T for (t, c) in o['queue']):
+        bad.append(('exactly-once', 're-entrant: a callback due before T=%r was not executed' % (T,)))
+    if any(tg < clk for tg, clk in o['nested']):
+        bad.append(('backwards-not-refused', 're-entrant: a nested evolve_until below the clock was not refused'))
+    if T - o['t1'] > EPS:
+        bad.append(('clock-end', 're-entrant: clock ended at %r for target %r' % (o['t1'], T)))
+    if all(tg <= T for tg, clk in o['nested']) and o['t1'] > T:
+        bad.append(('clock-above-target', 're-entrant (no nested target beyond T): evolve_until(%r) left the clock at %r' % (T, o['t1'])))
+    if o['t1'] > reach:
+        bad.append(('clock-above-target', 're-entrant: the clock %r is beyond the furthest target %r' % (o['t1'], reach)))
+    return bad
+
 
 def oracle(obs):
     """Returns a list of (key, what) for every clause of C20 that fails on these observations.
@@ -903,6 +1020,10 @@ def oracle(obs):
             continue
         fires = [e for e in o['events'] if e[0] == 'F']
         fired_keys = [(e[1], e[2]) for e in fires]
+        if o.get('reent'):
+            bad.extend(reent_clauses(o, fires, fired_keys, executed_before))
+            executed_before |= set(fired_keys)
+            continue
         if o['status'] == 'value':
             bad.append(('forwards-refused', 'evolve_until(%r) with the clock at %r (not ahead of the target) was refused as backwards'
                         % (T, o['t0'])))
@@ -1022,7 +1143,8 @@ def oracle(obs):
                             T, o['t1'], 'raises ValueError (backwards)' if o['again'] == 'value' else 'gives ' + o['again'])))
     # history level (Lean: history_inv): when no add_callback was for a time before the largest target
     # already evolved to, the callbacks run in (time, insertion) order ACROSS evolve_until calls as well
-    if obs and obs[-1]['adds_after_horizon'] and obs[-1]['wf']:
+    # (not for re-entering callbacks: what they schedule after their nested evolve_until returns lies behind the clock)
+    if obs and obs[-1]['adds_after_horizon'] and obs[-1]['wf'] and not any(o.get('reent') for o in obs):
         allkeys = [(e[1], e[2]) for o in obs if o['status'] == 'ok' for e in o['events'] if e[0] == 'F']
         if any(not (a < b) for a, b in zip(allkeys, allkeys[1:])):
             bad.append(('order-across-evolves', 'callbacks of successive evolve_until calls did not run in (time, insertion) order'))
@@ -1078,6 +1200,12 @@ DIRECTED = [
     # the docstring idiom `add_callback(self.t + period, ...)`: clock-relative children (oracle only)
     ('clockrel', [('kids', 0, [(0.25, 0, 'clock')]), ('add', 1.0, 0), ('add', 1.0 + 2 * TINY, 0), ('evolve', 2.0), ('evolve', 3.0 + TINY)]),
     ('clockrel', [('kids', 1, [(0.0, 2, 'clock')]), ('add', 1.0, 0), ('add', 1.0 + 2 * TINY, 1), ('evolve', 2.0)]),
+    # round 6: callbacks that call evolve_until themselves (Lean reentrant_later_target_overshoots and friends)
+    ('reent', [('nest', 0, 2.0, 0), ('add', 1.0, 0), ('add', 2.5, 1), ('evolve', 2.25), ('evolve', 4.0)]),
+    ('reent', [('kids', 0, [(0.25, 1), (0.5, 1)]), ('nest', 0, 0.375, 1), ('add', 1.0, 0), ('add', 1.125, 1), ('evolve', 3.0)]),
+    ('reent', [('nest', 0, -0.5, 0), ('add', 1.0, 0), ('add', 2.0, 1), ('evolve', 3.0), ('evolve', 3.0)]),
+    ('reent', [('kids', 1, [(0.0, 2)]), ('nest', 1, 0.0, 5), ('nest', 0, 1.0, 0), ('add', 1.0, 0), ('add', 1.5, 1), ('add', 1.0 + TINY, 1),
+               ('evolve', 1.25), ('evolve', 2.0 + TINY), ('evolve', 5.0)]),
     # round 6: exact time axes that are not floats (times as 'n/d' texts; handed over as objects of the axis)
     ('exact', [('axis', 'i64'), ('evolve', qs(TICK0)), ('add', qs(TICK0 + 300), 0), ('add', qs(TICK0 + 200), 1), ('add', qs(TICK0 + 201), 2),
                ('add', qs(TICK0 + 200), 3), ('evolve', qs(TICK0 + 250)), ('evolve', qs(TICK0 + 1000)), ('evolve', qs(TICK0 + 999))]),
@@ -1239,6 +1367,13 @@ def run(ctx):
                 agree = False
                 break
         # whole-history summary: time evolved to, clock, #created, #executed, #pending, global order
+        if reentrant(ops):
+            ctx.count('reentrant_evolves', len(obs))
+            ctx.count('reentrant_nested_calls', sum(len(o['nested']) for o in obs))
+            ctx.count('reentrant_nested_beyond_outer_target', sum(1 for o in obs for tg, clk in o['nested'] if tg > o['T']))
+            ctx.count('reentrant_nested_refused', sum(1 for o in obs for tg, clk in o['nested'] if tg < clk))
+            ctx.count('reentrant_clock_left_above_target', sum(1 for o in obs if o['status'] == 'ok' and o['t1'] > o['T']))
+            continue        # the whole-history summary is about `Hist` / `runOps` (entry-only callbacks)
         if agree and obs and all(o['status'] in ('ok', 'value', 'fuel', 'raised') for o in obs):
             ctx.traces_validated += 1
             ctx.count('history_summaries_compared')
